@@ -398,6 +398,53 @@ mod not_wasm_scheduler {
   }
 }
 
+/// Schedulers over any `futures` spawner, so that an external simulator can
+/// supply the executor while `schedule`, the delay wrapper, `Remote` and
+/// `TaskHandle` stay the shipped code.
+#[cfg(all(feature = "verif_hooks", not(target_arch = "wasm32")))]
+pub use verif_scheduler::{VerifLocalScheduler, VerifSharedScheduler};
+
+#[cfg(all(feature = "verif_hooks", not(target_arch = "wasm32")))]
+mod verif_scheduler {
+  use super::*;
+  use futures::task::{LocalSpawn, LocalSpawnExt, Spawn, SpawnExt};
+
+  #[derive(Clone)]
+  pub struct VerifLocalScheduler<S>(pub S);
+  #[derive(Clone)]
+  pub struct VerifSharedScheduler<S>(pub S);
+
+  macro_rules! verif_local_spawn {
+    ($pool: ident, $future: ident) => {
+      $pool.0.spawn_local($future).unwrap()
+    };
+  }
+
+  macro_rules! verif_shared_spawn {
+    ($pool: ident, $future: ident) => {
+      $pool.0.spawn($future).unwrap()
+    };
+  }
+
+  impl<T, S> Scheduler<T> for VerifLocalScheduler<S>
+  where
+    S: LocalSpawn + Clone,
+    T: Future + 'static,
+    T::Output: TaskReturn,
+  {
+    impl_scheduler_method!(verif_local_spawn);
+  }
+
+  impl<T, S> Scheduler<T> for VerifSharedScheduler<S>
+  where
+    S: Spawn + Clone,
+    T: Future + Send + 'static,
+    T::Output: TaskReturn + Send + 'static,
+  {
+    impl_scheduler_method!(verif_shared_spawn);
+  }
+}
+
 #[cfg(all(test, not(target_arch = "wasm32"), feature = "tokio-scheduler"))]
 mod test {
   use crate::{ops::complete_status::CompleteStatus, prelude::*};
